@@ -9,7 +9,7 @@ import (
 	"time"
 )
 
-//verif:entry property=C13 tier=both bounds="K publishes (K_quick=3,K_thorough=4), each with outcome in {ok, unencodable event (by type or by value: NaN), append rejected (with a plain error or one that also wraps context.Canceled), deadline expired}; error handler present or nil; persistence timeout set or not; observability set or not; a replay subscription live on the bus or not" cover="all-ok,some-failed" K_quick=3 K_thorough=4
+//verif:entry property=C13 tier=both bounds="K publishes (K_quick=3,K_thorough=4), each with outcome in {ok, unencodable event (by type or by value: NaN), append rejected (with a plain error or one that also wraps context.Canceled), deadline expired, acknowledged by the store although the persistence deadline passed during the append}; error handler present or nil; persistence timeout set or not; observability set or not; a replay subscription live on the bus or not" cover="all-ok,some-failed" K_quick=3 K_thorough=4
 func harnessC13Failures() {
 	K := vParam("K", 3)
 	mem := NewMemoryStore()
@@ -72,17 +72,20 @@ func harnessC13Failures() {
 	gotSelfBad := 0
 	Subscribe(bus, func(e evSelfBad) { gotSelfBad++ })
 
-	// outcome per publish: 0 ok, 1 append rejected, 2 deadline, 3 unencodable
+	// outcome per publish: 0 ok, 1 append rejected, 2 deadline, 3 unencodable, 4 acknowledged after the deadline passed
 	outs := make([]int, K)
 	wantFail := 0
 	var okNs []int
 	nBad, nUnenc := 0, 0
 	for i := 0; i < K; i++ {
-		hi := 3
+		hi := 4
 		outs[i] = vInt(0, hi)
 		if outs[i] == 2 && !withTimeout {
 			// without a persistence timeout no deadline exists
 			outs[i] = 1
+		}
+		if outs[i] == 4 && !withTimeout {
+			outs[i] = 0
 		}
 		if outs[i] != 3 {
 			fs.outcomes = append(fs.outcomes, outs[i])
@@ -104,7 +107,8 @@ func harnessC13Failures() {
 			continue
 		}
 		Publish(bus, evF{N: i + 1, F: 1.5})
-		if outs[i] == 0 {
+		if outs[i] == 0 || outs[i] == 4 {
+			// 4: acknowledged by the store (although late) - a success
 			okNs = append(okNs, i+1)
 		} else {
 			wantFail++
@@ -126,7 +130,7 @@ func harnessC13Failures() {
 		vAssert(len(reports) == wantFail, "each-failure-reported-once")
 		ri := 0
 		for i := 0; i < K; i++ {
-			if outs[i] == 0 {
+			if outs[i] == 0 || outs[i] == 4 {
 				continue
 			}
 			r := reports[ri]
